@@ -363,6 +363,7 @@ func (c *child) doCell(idx int, cell pktgen.Cell, firstOfRegistry bool) {
 func atoiEnv(k string) int { n, _ := strconv.Atoi(os.Getenv(k)); return n }
 
 func runChild(r *vrt.R) {
+	pktgen.Thorough = r.Thorough()
 	_ = syscall.Setrlimit(syscall.RLIMIT_AS, &syscall.Rlimit{Cur: asLimit, Max: asLimit})
 	c := &child{r: r, out: bufio.NewWriterSize(os.NewFile(3, "progress"), 1<<16), trace: os.Getenv("C05_TRACE") != "",
 		from: atoiEnv("C05_FROM"), only: atoiEnv("C05_ONLY")}
@@ -436,6 +437,7 @@ type childRun struct {
 	stderr   string
 	done     map[int]bool
 	skipped  []int
+	deadline bool // killed because the soft deadline passed
 }
 
 func spawn(env []string, stall time.Duration, hard time.Time) *childRun {
@@ -510,6 +512,7 @@ loop:
 			break loop
 		}
 		if time.Now().After(hard) {
+			cr.deadline = true
 			_ = cmd.Process.Kill()
 			break loop
 		}
@@ -610,6 +613,10 @@ func (p *parent) investigate(idx int) {
 			}
 			return
 		}
+		if cr.deadline {
+			r.NotExhaustive("soft deadline reached")
+			return
+		}
 		if cr.lastCase == 0 {
 			r.NotExhaustive(fmt.Sprintf("cell %s: child died before the first case: %s", cell, firstLines(cr.stderr, 3)))
 			return
@@ -657,6 +664,8 @@ func runParent(r *vrt.R) {
 			}
 		case cr.hung:
 			r.Violation(tn+"/hang", "replay: decoding does not finish within 10 s", x)
+		case cr.deadline:
+			r.NotExhaustive("soft deadline reached during replay")
 		default:
 			r.Violation(tn+"/process-crash:"+crashKind(cr.stderr), "replay: the process died while decoding\n"+firstLines(cr.stderr, 12), x)
 		}
@@ -693,7 +702,7 @@ func runParent(r *vrt.R) {
 		if cr.ended || len(rest) == 0 {
 			break
 		}
-		if time.Now().After(p.hard) {
+		if cr.deadline || time.Now().After(p.hard) {
 			r.NotExhaustive("soft deadline reached")
 			break
 		}
